@@ -112,14 +112,14 @@ func VisitsAll(fn *ssa.Function, sel func(ssa.CallInstruction) bool, recv *ssa.P
 			calls = append(calls, c2)
 		}
 	}
-	rn := recv.Name()
+	rn := PN(recv)
 	overOK := func(over string, f *ssa.Function) bool {
 		if over == rn {
 			return true
 		}
 		// the helper's own parameter that every call site binds to recv
 		for _, p := range f.Params {
-			if p.Name() == over && f != fn {
+			if PN(p) == over && f != fn {
 				var d string
 				Bound(func() { d = Desc(p) })
 				return d == rn
